@@ -90,13 +90,16 @@ CHECKS = {
   note=COMMON_NOTE + "Hook lorawan_device::mac::verif (cfg lora_rs_verif) drives the crate-private Mac and dumps its state; it only copies fields.",
   tech="machine-checked proof in Coq (counter arithmetic for all inputs; acceptance = reference rule) + MAC-history correspondence through a read-only hook + independent reference oracle", ref="6 C05"),
  "C06": dict(
-  text="Coq theorems (Props/C06.v), MAC core: every send hands out exactly the current FCntUp and does not move it; rx2_complete moves it by +1 or reports SessionExpired at 2^32-1 "
-       "(never wraps); a receive never rewinds it. PARTIAL for the front-ends: that every uplink is concluded before the next send is not a theorem (no front-end model); it is "
-       "exercised by driving async_device (incl. Class C) and nb_device with a scripted radio, a radio fault injected at every radio-call position of send/RX1-hit/RX2-hit/"
-       "timeout/invalid-frame histories from counters 0, 0xFFFF and 2^32-2, decoding every frame handed to the radio with an independent codec and requiring strictly "
-       "increasing 32-bit counters up to the reported session expiry.",
-  note=COMMON_NOTE + "The front-end layer (async_device/mod.rs, nb_device/state.rs) is checked by fault enumeration, not proved; the executor is a 20-line no-waker poller.",
-  tech="machine-checked proof in Coq for the MAC core + fault-position enumeration on both front-ends with an independent decoding oracle", ref="6 C06"),
+  text="Coq theorems (Props/C06.v). MAC core: every send hands out exactly the current FCntUp and does not move it; rx2_complete moves it by +1 or reports SessionExpired at 2^32-1 "
+       "(never wraps); a receive never rewinds it. Asynchronous front-end (Model/AsyncDev.v: Device::send / join / rxc_listen, RX1/RX2 windows, Class C reception between the windows): "
+       "C06_async_send_concludes_the_uplink -- for EVERY radio behaviour (any script of timeouts, errors, frames, pending receptions; a fault at any radio call; Class C or not) a send that "
+       "returns, with a value or an error, has moved the session's counter past the counter of the frame it built or reports SessionExpired with the counter space exhausted, keys unchanged; "
+       "C06_async_counters_strictly_increase -- any two uplinks of one session are built from strictly increasing counters whatever happened in between (sends, Class C listening, DR/ADR "
+       "changes). The front-end model is tied to async_device/mod.rs by running both on the same histories (results and the trace of radio / timer calls compared). The non-blocking "
+       "front-end (nb_device) is exercised with a radio fault at every radio-call position from counters 0, 0xFFFF and 2^32-2; every frame handed to the radio by either front-end is "
+       "decoded with an independent codec and must carry strictly increasing 32-bit counters up to the reported session expiry.",
+  note=COMMON_NOTE + "PARTIAL for nb_device/state.rs only: checked by fault enumeration with an independent decoder, not modelled. The async model covers the default feature set (class-c; no multicast / certification); the executor is a 20-line no-waker poller; the timer completes at once (a pending rx_continuous loses against it).",
+  tech="machine-checked proof in Coq (MAC core + async front-end over all radio behaviours) + model/implementation correspondence on front-end histories + fault-position enumeration on nb_device with an independent decoding oracle", ref="6 C06"),
  "C07": dict(
   text="Coq theorems (Props/C07.v): for every session state, configuration, channel plan and byte string: if the reference codec does not accept the frame (spec_accepts: "
        "reference MIC + freshness) and it is not oversized, handle_rx returns EXACTLY the same session, configuration, region and buffer with response NoUpdate (state equality, "
